@@ -185,7 +185,14 @@ def rand_spec_desc(rng, seq, kinds=None):
         loc = None if rng.random() < 0.5 else problems.rand_loc(rng, n, 2, strands=(1, 0, -1))
         return dict(kind="gcglobal", mini=rng.choice([0.0, 0.25, 0.4]), maxi=rng.choice([0.5, 0.6, 0.75, 1.0]), location=loc)
     if k == "change_min":
-        return dict(kind="change_min", minimum=rng.randint(1, 4), location=None if rng.random() < 0.5 else problems.rand_loc(rng, n, 2, strands=(1, 0)))
+        d = dict(kind="change_min", minimum=rng.randint(1, 4), location=None if rng.random() < 0.5 else problems.rand_loc(rng, n, 2, strands=(1, 0)))
+        if rng.random() < 0.4:
+            # the documented percentage form; often with p * L an exact multiple of 100 (the bound is an integer)
+            L = n if d["location"] is None else d["location"][1] - d["location"][0]
+            ps = [p_ for p_ in range(1, 100) if (p_ * L) % 100 == 0]
+            d["minimum_percent"] = rng.choice(ps) if (ps and rng.random() < 0.7) else rng.randint(1, 99)
+            del d["minimum"]
+        return d
     if k in ("change_obj",):
         if rng.random() < 0.3:
             idx = sorted(rng.sample(range(n), rng.randint(1, min(n, 6))))
@@ -214,6 +221,8 @@ def build(desc):
     if k == "gcglobal":
         return dc.EnforceGCContent(mini=desc["mini"], maxi=desc["maxi"], location=loc)
     if k == "change_min":
+        if desc.get("minimum_percent") is not None:
+            return dc.EnforceChanges(minimum_percent=desc["minimum_percent"], location=loc)
         return dc.EnforceChanges(minimum=desc["minimum"], location=loc)
     if k == "gc_obj":
         return dc.EnforceGCContent(target=desc["target"], window=desc["window"], boost=desc.get("boost", 1), location=loc)
